@@ -8,52 +8,37 @@
    yet; at the end every committed log has been published.  So: after the outermost commit; nothing for failed,
    dry-run, rolled-back and commit-failed writes; exactly one event per committed write.
 
-   FULL STATEMENT (false of the unchanged code, see the two refutations below):
-     forall init ops, check (trace_of false init ops) = VOk.                                                     *)
+   FULL STATEMENT (false of the code because of idempotent replays, see C31_refuted_replay):
+     forall init ops, check (trace_of init ops) = VOk.
+   The model follows the code AFTER the repair of KF-C31-first-write-event-before-commit (LockLedger propagates hasTx). *)
 From Coq Require Import List ZArith Bool.
 From LV Require Import Ledger.Events Ledger.EventsProofs.
 Import ListNotations.
 Open Scope Z_scope.
 
-(* S-31a: LockLedger returns an events object with hasTx = false, so on the first write of an initializing ledger
-   (handleState: BeginTX -> LockLedger -> write -> Commit) handleEvent fires inside the still-open transaction. *)
-Theorem C31_refuted_first_write :
-  exists ops, forallb eop_no_hit ops = true /\
-    trace_of false true ops = [SqlBegin; LogAppended 1; Publish 1; SqlCommitOk] /\
-    check (trace_of false true ops) = VBeforeCommit 1.
-Proof. exists [OWrite wok]. vm_compute. repeat split. Qed.
-Print Assumptions C31_refuted_first_write.
-
-(* ... and when that COMMIT fails the event of a write that never became durable has already been delivered *)
-Theorem C31_refuted_first_write_commit_failure :
-  exists ops, forallb eop_no_hit ops = true /\
-    trace_of false true ops = [SqlBegin; LogAppended 1; Publish 1; SqlCommitFail].
-Proof. exists [OFailCommit 0; OWrite wok]. vm_compute. repeat split. Qed.
-Print Assumptions C31_refuted_first_write_commit_failure.
-
-(* S-31b: an idempotent replay (forgeLog answers from the stored log, idempotencyHit = true) publishes the event
-   of that log a second time: ControllerWithEvents does not look at idempotencyHit. *)
+(* S-31b (still open, known finding KF-C31-replay-republishes): an idempotent replay (forgeLog answers from the stored log,
+   idempotencyHit = true) publishes the event of that log a second time: ControllerWithEvents does not look at idempotencyHit. *)
 Theorem C31_refuted_replay :
   exists ops,
-    trace_of false false ops = [SqlBegin; LogAppended 1; SqlCommitOk; Publish 1; SqlBegin; SqlRollback; Publish 1] /\
-    check (trace_of false false ops) = VNoWrite 1.
+    trace_of false ops = [SqlBegin; LogAppended 1; SqlCommitOk; Publish 1; SqlBegin; SqlRollback; Publish 1] /\
+    check (trace_of false ops) = VNoWrite 1.
 Proof. exists [OWrite wok; OWrite {| w_dry := false; w_out := WHit 1 |}]. vm_compute. split; reflexivity. Qed.
 Print Assumptions C31_refuted_replay.
 
-(* Strongest true statement about the unchanged code: on a ledger that is already in use, every history of single
-   writes (any outcome, dry-run or not), atomic and non-atomic bulks (continueOnFailure or not) and COMMIT faults at
-   any position, without idempotent replays, satisfies the judgement.  No bound on the history or the bulks. *)
-Theorem C31_partial : forall ops,
-  forallb eop_no_hit ops = true -> check (trace_of false false ops) = VOk.
-Proof. intros ops H. apply trace_check_ok; [right; reflexivity | exact H]. Qed.
+(* Strongest true statement: on ANY ledger (still initializing or already in use), every history of single writes (any
+   outcome, dry-run or not), atomic and non-atomic bulks (continueOnFailure or not) and COMMIT faults at any position,
+   without idempotent replays, satisfies the judgement.  No bound on the history or the bulks.  (Before the repair of
+   KF-C31-first-write-event-before-commit this held for in-use ledgers only: see the historical part below.) *)
+Theorem C31_partial : forall init ops,
+  forallb eop_no_hit ops = true -> check (trace_of init ops) = VOk.
+Proof. exact trace_check_ok. Qed.
 Print Assumptions C31_partial.
 
-(* With the proposed repair (LockLedger propagates hasTx: `hasTx: c.hasTx` in the returned object) the restriction to
-   in-use ledgers disappears. *)
-Theorem C31_repaired : forall init ops,
-  forallb eop_no_hit ops = true -> check (trace_of true init ops) = VOk.
-Proof. intros init ops H. apply trace_check_ok; [left; reflexivity | exact H]. Qed.
-Print Assumptions C31_repaired.
+(* the same from any position of the log sequence (the form the tie uses) *)
+Theorem C31_partial_from : forall init n ops,
+  forallb eop_no_hit ops = true -> check (trace_from init n ops) = VOk.
+Proof. exact trace_from_check_ok. Qed.
+Print Assumptions C31_partial_from.
 
 (* what a passing trace means: each Publish is preceded by  LogAppended id ... COMMIT ok  with no transaction boundary in between *)
 Theorem C31_after_commit : forall tr, check tr = VOk ->
@@ -62,23 +47,43 @@ Theorem C31_after_commit : forall tr, check tr = VOk ->
 Proof. exact check_ok_publish_after_commit. Qed.
 Print Assumptions C31_after_commit.
 
-(* the grid of the property's quantifier: context x outcome, faithful model and repaired model *)
-Theorem C31_scenarios : forall c o,
-  check (scenario_trace false c o) = scenario_expected c o /\ check (scenario_trace true c o) = VOk.
-Proof. intros c o; destruct c, o; vm_compute; split; reflexivity. Qed.
+(* the grid of the property's quantifier: context x outcome *)
+Theorem C31_scenarios : forall c o, check (scenario_trace c o) = VOk.
+Proof. intros c o; destruct c, o; vm_compute; reflexivity. Qed.
 Print Assumptions C31_scenarios.
 
-(* non-vacuity: a history mixing all contexts on an in-use ledger; committed writes 1,3,4,5,7 each publish once, after their commit *)
+(* non-vacuity: the first write of an initializing ledger queues its event on the BeginTX object and publishes after COMMIT;
+   then a history mixing all contexts; committed writes 1,3,4,5,7 each publish once, after their commit *)
+Example C31_example_first_write :
+  trace_of true [OWrite wok] = [SqlBegin; LogAppended 1; SqlCommitOk; Publish 1] /\
+  trace_of true [OFailCommit 0; OWrite wok] = [SqlBegin; LogAppended 1; SqlCommitFail].
+Proof. vm_compute. split; reflexivity. Qed.
+
 Example C31_example :
   let ops := [OWrite wok; OWrite {| w_dry := true; w_out := WOk |}; OBulk true false [wok; wok];
               OWrite {| w_dry := false; w_out := WFail |}; OFailCommit 1; OBulk false true [wok; {| w_dry := false; w_out := WFail |}; wok; wok]] in
   forallb eop_no_hit ops = true /\
-  trace_of false false ops =
+  trace_of false ops =
     [SqlBegin; LogAppended 1; SqlCommitOk; Publish 1;
      SqlBegin; LogAppended 2; SqlRollback;
      SqlBegin; LogAppended 3; LogAppended 4; SqlCommitOk; Publish 3; Publish 4;
      SqlBegin; SqlRollback;
      SqlBegin; LogAppended 5; SqlCommitOk; Publish 5; SqlBegin; SqlRollback; SqlBegin; LogAppended 6; SqlCommitFail;
      SqlBegin; LogAppended 7; SqlCommitOk; Publish 7] /\
-  check (trace_of false false ops) = VOk.
+  check (trace_of false ops) = VOk.
 Proof. vm_compute. repeat split. Qed.
+
+(* ---------- HISTORICAL: the model variant before the repair of KF-C31-first-write-event-before-commit ----------
+   [trace_pre_fix] (LockLedger returning hasTx = false, suspect S-31a) is no longer tied to the code; the statements record
+   what the defect was and that the pre-fix code was correct on in-use ledgers only. *)
+Example C31_pre_fix_first_write :
+  trace_pre_fix true [OWrite wok] = [SqlBegin; LogAppended 1; Publish 1; SqlCommitOk] /\
+  check (trace_pre_fix true [OWrite wok]) = VBeforeCommit 1 /\
+  trace_pre_fix true [OFailCommit 0; OWrite wok] = [SqlBegin; LogAppended 1; Publish 1; SqlCommitFail].
+Proof. vm_compute. repeat split. Qed.
+
+Example C31_pre_fix_in_use_only : forall ops, forallb eop_no_hit ops = true -> check (trace_pre_fix false ops) = VOk.
+Proof. exact trace_pre_fix_check_ok. Qed.
+
+Example C31_pre_fix_scenarios : forall c o, check (scenario_trace_pre_fix c o) = scenario_expected_pre_fix c o.
+Proof. intros c o; destruct c, o; vm_compute; reflexivity. Qed.
